@@ -234,7 +234,8 @@ def _search_dirs(dirs: List[Path], search_glob: str) -> List[Path]:
     """
     matched_files: List[Path] = []
     for directory in dirs:
-        for path_str in glob.iglob(str(Path(directory) / search_glob), recursive=True):
+        # NOTE: Only `search_glob` is a pattern. The directory may contain glob's special characters (`[`, `*`, `?`).
+        for path_str in glob.iglob(str(Path(glob.escape(str(directory))) / search_glob), recursive=True):
             path = Path(path_str)
             # Skip any subdirectory or file (under the top-level directory) that starts with an underscore
             rel_dir_parts = list(path.relative_to(directory).parts)
